@@ -1,0 +1,8 @@
+//go:build !verif
+
+// Package verifhook provides named suspension points for external verification drivers.
+// Without the build tag `verif` every hook is an empty function.
+package verifhook
+
+// At marks a suspension point (no-op in this build).
+func At(string) {}
